@@ -42,6 +42,10 @@ def run(ctx):
                 ctx.ob("C05.rhs", tag, False, f"update raises {R.exc!r}", mloc)
                 continue
             analyse(ctx, R, tag, mloc)
+            w = driver.callback_array_writes(R)
+            ctx.ob("C05.rhs-pure", f"{tag}:arrays returned by the user's callables are left as they are", not w,
+                   f"in-place writes into them: {w[:4]} (a callable that hands out one stored array then sees its history rescaled by the strain-rate scale of "
+                   "the first evaluation, so the result depends on the rate)", mloc)
     rhs_pure(ctx)
     ctx.floor("C05.rhs", 12)
     ctx.floor("C05.guards", 4)
